@@ -303,7 +303,7 @@ def check(run):
     run.assumptions = ['interleaving points are the iterator / writer calls (what the statement names)', 'Python port only: rbql-js keeps one module-global context (documented limitation)']
     d = tlcrun.new_scratch('c16')
     # (A) exhaustive interleavings without the history variable in the fingerprint
-    res = tlcrun.run_tlc('MC_Isolation', iso_cfg(os.path.join(d, 'all.cfg'), 'Kinds', 'Kinds', 'R_iso2' if quick else 'R_iso', 2 if quick else 3, False, True), timeout=7200, heap='24g', coverage=not quick)
+    res = tlcrun.run_tlc('MC_Isolation', iso_cfg(os.path.join(d, 'all.cfg'), 'Kinds', 'Kinds', 'R_iso2' if quick else 'R_iso', 2 if quick else 3, False, True), timeout=7200, heap='24g')
     run.add_tlc('MC_Isolation:all-pairs-view', res)
     mres = tlcrun.run_tlc('MC_IsolationShared', iso_cfg(os.path.join(d, 'shared.cfg'), 'Kinds', 'Kinds', 'R_iso2', 2, False, True), timeout=3600, heap='24g', expect_violation=True)
     if mres.violation is None:
